@@ -360,8 +360,8 @@ Qed.
 Lemma next_tok_keep : forall t r, is_eol t = false -> next_tok false (t :: r) = Some (t, r).
 Proof. intros. simpl. rewrite H. reflexivity. Qed.
 
-Lemma block_loop_eq : forall lower f st done toks,
-  block_loop lower (S f) st done toks =
+Lemma block_loop_eq : forall lower resolve f st done toks,
+  block_loop lower resolve (S f) st done toks =
     match next_tok (x_cap st) toks with
     | None => Ok (st, done, [])
     | Some (t0, r) =>
@@ -369,25 +369,25 @@ Lemma block_loop_eq : forall lower f st done toks,
       if text_eqb t kw_END || text_eqb t kw_ENDBLOCK then Ok (st, done, skip_semi (x_cap st) r)
       else if text_eqb t kw_TITLE then
         do x <- parse_title (x_cap st) r ;;
-        let (title, r') := x in block_loop lower f (set_title st (Some title)) done r'
+        let (title, r') := x in block_loop lower resolve f (set_title st (Some title)) done r'
       else if text_eqb t kw_LINK then
         do x <- parse_link f (x_cap st) None
                            (match next_tok (x_cap st) r with Some (u, _) => Some (ucase u) | None => None end)
                            (match next_tok (x_cap st) r with Some (_, q) => q | None => [] end) ;;
-        let (lk, r') := x in block_loop lower f (set_link st lk) done r'
+        let (lk, r') := x in block_loop lower resolve f (set_link st lk) done r'
       else if text_eqb t kw_DIMENSIONS then
         do x <- parse_dimensions f st r ;;
-        let (st', r') := x in block_loop lower f st' done r'
+        let (st', r') := x in block_loop lower resolve f st' done r'
       else if text_eqb t kw_FORMAT then
         do x <- req_tok (x_cap st) r ;;
         let (u, r1) := x in
         do y <- parse_format f st (ucase u) r1 ;;
-        let (st', r') := y in block_loop lower f st' done r'
+        let (st', r') := y in block_loop lower resolve f st' done r'
       else if text_eqb t kw_MATRIX then
-        do x <- parse_matrix lower f st r ;;
-        let '(st', br, r') := x in block_loop lower f st' (done ++ [br]) r'
+        do x <- parse_matrix lower resolve f st r ;;
+        let '(st', br, r') := x in block_loop lower resolve f st' (done ++ [br]) r'
       else if text_eqb t kw_BEGIN then Err ParseErr
-      else block_loop lower f st done r
+      else block_loop lower resolve f st done r
     end.
 Proof. reflexivity. Qed.
 
@@ -450,7 +450,7 @@ Variable lower : text -> text.
 
 Lemma parse_matrix_fixed : forall fuel ns nt nchar dt sy gap mis il cs ti lk R,
   fixed_dtype dt = true -> nt <> 0 -> nchar <> 0 ->
-  parse_matrix lower fuel (mkNX ns (Some nt) (Some nchar) dt sy gap mis [t_dot; t_dot] il false cs ti lk) R
+  parse_matrix lower keep_ns fuel (mkNX ns (Some nt) (Some nchar) dt sy gap mis [t_dot; t_dot] il false cs ti lk) R
   = do x <- matrix_loop lower fuel (mkNX ns (Some nt) (Some nchar) dt sy gap mis [t_dot; t_dot] il false cs ti lk)
                         (alphabet_of_dtype dt) nchar [] None R ;;
     let '(st', a', rows, rest) := x in
@@ -471,7 +471,7 @@ Theorem nexus_chars_roundtrip_l : forall (dt : dtype) (simple cs : bool) (m : ma
   rectangular nchar m = true ->
   exists toks st',
     write_chars_block dt [alphabet_of_dtype dt] [] (mkNW simple None None) m = Ok toks
-    /\ read_chars_block lower
+    /\ read_chars_block lower keep_ns
          (if simple then nx_init [] None cs else nx_init (map fst m) (Some (len m)) cs) toks
        = Ok (st', [mkBR dt (alphabet_of_dtype dt) m (map fst m) None None], [EOL; EOL; EOL]).
 Proof.
